@@ -51,6 +51,23 @@ WA_EXAMPLES = ["waroot/examples/brainfuck.wa", "waroot/examples/copy.wa", "waroo
                "waroot/examples/interface_named.wa", "waroot/examples/hello/hello.wa", "waroot/examples/fib/fib.wa"]
 
 
+# probe modules: which Variant (Model/C06.lean) does the current remove_unused.go implement?
+PROBES = [
+    # importRoots: an import referenced only from elem is kept
+    ('(module (import "env" "h" (func $h)) (table 1 funcref) (func $f (export "f")) (elem (i32.const 0) $h))',
+     lambda kept: "$h" in kept.split()),
+    # tableSetLookup: table.set $t marks the function called $t
+    ('(module (table $t 1 funcref) (func $t) (func $f (export "f") i32.const 0 i32.const 0 table.get $t table.set $t))',
+     lambda kept: "$t" in kept.split()),
+    # skipUnnamedExports: (export "" (func $f)) does not keep $f
+    ('(module (func $f) (export "" (func $f)))',
+     lambda kept: "$f" not in kept.split()),
+    # nilPanics: a call to a name that is not a function crashes the pass
+    ('(module (func $f (export "f") call $nope))',
+     lambda kept: kept.startswith("PANIC")),
+]
+
+
 def d(names):
     return " ".join("$" + n for n in names)
 
@@ -248,11 +265,21 @@ def run(ctx):
                 outs[i] = o
 
     t3 = time.time()
+    # ---------------- which variant of the pass is this?  (probes through the real pass)
+    pouts = run_batch(ctx, h, ["hex %s 1" % w.encode().hex() for w, _ in PROBES], 60)
+    bits = []
+    for (w, pred), po in zip(PROBES, pouts):
+        if po.get("status") != "ok" or "kept" not in po:
+            raise vlib.InfraError("variant probe failed: %s -> %s" % (w, po))
+        bits.append(1 if pred(po["kept"]) else 0)
+    vprefix = "V %d %d %d %d " % tuple(bits)
+    variant = dict(zip(["importRoots", "tableSetLookup", "skipUnnamedExports", "nilPanics"], bits))
+    ctx.notes.append("measured variant of remove_unused.go: %s (%s)" % (variant, "pinned" if bits == [0, 1, 1, 1] else "fixed" if bits == [1, 0, 0, 0] else "other"))
     # ---------------- the Lean model on the same graphs
     mouts = {}
     gi = [i for i, o in enumerate(outs) if o and o.get("status") == "ok" and o.get("graph")]
     if model and gi:
-        rc, mo, me = ctx.run_bin(model, input_text="\n".join(outs[i]["graph"] for i in gi) + "\n", timeout=900)
+        rc, mo, me = ctx.run_bin(model, input_text="\n".join(vprefix + outs[i]["graph"] for i in gi) + "\n", timeout=900)
         ml = mo.splitlines()
         if len(ml) != len(gi):
             ctx.proof["broken"].append({"theorem": "correspondence C06", "why": "model driver returned %d lines for %d graphs: %s" % (len(ml), len(gi), me[-300:])})
@@ -348,6 +375,7 @@ def run(ctx):
         "samples": samples,
         "distribution": dict(sorted(dist.items())),
         "volumes": stats,
+        "variant_of_real_pass": variant,
     }
     return ctx.finish("proof", cov,
                       assumptions=["function names are distinct and every referenced name is defined (WF) — Wat2Wasm rejects the others; inputs outside WF are only compared model-vs-code",
